@@ -28,7 +28,7 @@ func main() {
 		usage()
 	}
 	switch os.Args[1] {
-	case "verify", "list", "loops", "maporder", "splitindex", "divzero", "keyreads":
+	case "verify", "list", "loops", "maporder", "splitindex", "divzero", "keyreads", "firstmatch":
 		cmdVerify(os.Args[1], os.Args[2:])
 	case "check":
 		os.Exit(cmdCheck(os.Args[2:]))
@@ -187,6 +187,9 @@ func cmdVerify(mode string, argv []string) {
 		return
 	case "divzero":
 		cmdDivZero(P)
+		return
+	case "firstmatch":
+		cmdFirstMatch(P)
 		return
 	case "keyreads":
 		cmdKeyReads(P, os.Getenv("GOVC_BUILD_FN"), os.Getenv("GOVC_KEY_FN"), os.Getenv("GOVC_TYPE"))
